@@ -72,6 +72,28 @@ def corpus():
     add('namedtuple', fixtures.NT(1, [2]))
     add('call', fixtures.Call([1], kw={'a': (1,)}))
     add('subclass', fixtures.SUBCLASSES[dict][0]({'k': fixtures.SUBCLASSES[str][1]('v')}))
+    # values that are equal, hash-equal or textually identical but must print differently: anything
+    # memoised on an incomplete key shows up as a dependence on which of them was printed first
+    text = 'some/long path with/spaces and/slashes ' * 3
+    add('collide:str', text)
+    add('collide:posixpath', pathlib.PurePosixPath(text))
+    add('collide:windowspath', pathlib.PureWindowsPath(text))
+    add('collide:bytes', text.encode())
+    add('collide:strsub', fixtures.SUBCLASSES[str][0](text))
+    add('collide:str-in-list', [text, 1])
+    add('collide:str-dict-key', {text: 1})
+    add('collide:str-dict-val', {'k': text})
+    add('collide:int1', 1)
+    add('collide:true', True)
+    add('collide:float1', 1.0)
+    add('collide:zero', 0.0)
+    add('collide:negzero', -0.0)
+    add('collide:list', [0, 1, 2])
+    add('collide:tuple', (0, 1, 2))
+    add('collide:listsub', fixtures.SUBCLASSES[list][0]([0, 1, 2]))
+    add('collide:intenum', fixtures.IE.A)
+    add('collide:empty-str', '')
+    add('collide:empty-bytes', b'')
     cyc = [1]
     cyc.append({'self': cyc})
     add('cycle', cyc)
@@ -115,6 +137,32 @@ def fresh_main():
         r = oracles.run_pformat(v, **cfg)
         outs.append({'text': oracles.normalize_ids(r.text) if r.text is not None else None, 'exc': r.exc, 'warnings': r.warnings})
     print(json.dumps(outs))
+
+
+def pair_main():
+    """python -m mc.checks.c19 pair <i> <j>: print value i, then value j, in a fresh interpreter."""
+    import json
+    setup_process()
+    vals = corpus()
+    i, j = int(sys.argv[2]), int(sys.argv[3])
+    for cfg in CFGS:
+        oracles.run_pformat(vals[i][1], **cfg)
+    outs = []
+    for cfg in CFGS:
+        r = oracles.run_pformat(vals[j][1], **cfg)
+        outs.append({'text': oracles.normalize_ids(r.text) if r.text is not None else None, 'exc': r.exc, 'warnings': r.warnings})
+    print(json.dumps(outs))
+
+
+def fresh_pair(item):
+    import json
+    i, j = item
+    env = dict(os.environ, PYTHONHASHSEED='0', PYTHONDONTWRITEBYTECODE='1', PYTHONPATH=core.REPO + os.pathsep + core.VERIF)
+    p = subprocess.run([sys.executable, '-m', 'mc.checks.c19', 'pair', str(i), str(j)], cwd=core.VERIF, env=env,
+                       stdout=subprocess.PIPE, stderr=subprocess.PIPE, text=True, timeout=120)
+    if p.returncode != 0:
+        return {'pair': item, 'error': p.stderr[-500:]}
+    return {'pair': item, 'outs': json.loads(p.stdout.strip().splitlines()[-1])}
 
 
 def fresh_reference(idx):
@@ -277,6 +325,34 @@ def run(tier, seed):
         levels.append(len(nxt))
         frontier = nxt
         depth += 1
+    # all ordered pairs (print i, then j) from the restored snapshot, in this process
+    part = core.Part()
+    for i in range(len(vals)):
+        for j in range(len(vals)):
+            R.restore()
+            for cfg in CFGS:
+                oracles.run_pformat(vals[i][1], **cfg)
+            print_checked(vals, j, ref, part, (i,))
+            part.c['ordered_pairs'] += 1
+    res.add([part])
+    # ordered pairs over the collision subset, each in its own fresh interpreter (hidden module state
+    # that the snapshot cannot restore starts cold here)
+    names = [n for n, _ in vals]
+    sub = [k for k, n in enumerate(names) if n.startswith('collide:') or n in ('purepath', 'longstr', 'enum', 'uuid')]
+    if tier == 'quick':
+        sub = [k for k in sub if names[k] in ('collide:str', 'collide:posixpath', 'collide:bytes', 'collide:strsub', 'collide:str-dict-key',
+                                              'collide:int1', 'collide:true', 'collide:float1', 'collide:zero', 'collide:negzero',
+                                              'collide:list', 'collide:tuple', 'collide:intenum', 'collide:empty-str', 'collide:empty-bytes')]
+    pairs = [(i, j) for i in sub for j in sub if i != j]
+    for o in core.pmap(fresh_pair, pairs):
+        res.agg.n += 1
+        res.agg.c['fresh_interpreter_pairs'] += 1
+        i, j = o['pair']
+        if 'outs' not in o:
+            res.agg.violation('fresh-interpreter-run-failed', {'history': [names[i]], 'print': names[j]}, o.get('error'))
+        elif o['outs'] != ref[j]:
+            res.agg.violation('differs-from-first-print-in-fresh-interpreter', {'history': [names[i]], 'print': names[j], 'mode': 'fresh interpreter per pair'},
+                              {'got': o['outs'], 'fresh': ref[j]})
     # explicit repetitions x3 and all ordered pairs from the warm end state are transitions of the
     # search already (every value is printed in every state); repetition within one state:
     part = core.Part()
@@ -295,6 +371,7 @@ def run(tier, seed):
                 'state every value is printed under %d configurations, each also with a perturbed id(), and compared with '
                 'its first print in a fresh interpreter; non-trivial = transitions that change the state'
                 % (len(vals), len(CFGS)),
+        'ordered_pairs_in_process': a.c['ordered_pairs'], 'ordered_pairs_each_in_a_fresh_interpreter': a.c['fresh_interpreter_pairs'],
         'new_states_per_level': levels, 'depth_bound': maxdepth, 'frontier_left_at_bound': len(frontier),
         'corpus': [n for n, _ in vals],
         'samples': [{'history': [vals[h][0] for h in hist]} for hist in list(seen.values())[-3:]],
@@ -328,4 +405,7 @@ def replay(case):
 
 
 if __name__ == '__main__':
-    fresh_main()
+    if len(sys.argv) > 1 and sys.argv[1] == 'pair':
+        pair_main()
+    else:
+        fresh_main()
